@@ -866,7 +866,12 @@ fn mutations(rng: &mut Rng, b: &Base, unsigned: &GReq, signed: &GReq, expires: &
                 out(&r, "reject", &format!("mut-{tag}-value"));
                 let mut r = signed.clone();
                 r.headers.push((name.to_owned(), alt.to_owned()));
-                out(&r, "any", &format!("dup-{tag}-after-signing"));
+                // the field is the comma-joined list of both values: not what was signed
+                out(&r, "reject", &format!("dup-{tag}-after-signing"));
+                let mut r = unsigned.clone();
+                r.headers.insert(0, (name.to_owned(), alt.to_owned()));
+                sign(&mut r, Some(expires));
+                out(&r, "accept", &format!("dup-{tag}-signed"));
             }
             None => {
                 let mut r = signed.clone();
@@ -875,12 +880,12 @@ fn mutations(rng: &mut Rng, b: &Base, unsigned: &GReq, signed: &GReq, expires: &
                 let mut r = signed.clone();
                 r.headers.push((name.to_owned(), alt.to_owned()));
                 r.headers.push((name.to_owned(), alt.to_owned()));
-                out(&r, "any", &format!("dup-{tag}-added-twice"));
+                out(&r, "reject", &format!("dup-{tag}-added-twice"));
                 let mut r = unsigned.clone();
                 r.headers.push((name.to_owned(), alt.to_owned()));
                 r.headers.push((name.to_owned(), format!("{alt}")));
                 sign(&mut r, Some(expires));
-                out(&r, "any", &format!("dup-{tag}-signed"));
+                out(&r, "accept", &format!("dup-{tag}-signed"));
             }
         }
     }
@@ -898,6 +903,14 @@ fn mutations(rng: &mut Rng, b: &Base, unsigned: &GReq, signed: &GReq, expires: &
             let mut r = signed.clone();
             r.headers.remove(i);
             out(&r, "reject", "mut-date-removed");
+            // Date sent twice: the comma-joined field is signed, and it is a time stamp
+            let mut r = signed.clone();
+            r.headers.push(("Date".to_owned(), rand_date(rng)));
+            out(&r, "reject", "dup-date-after-signing");
+            let mut r = unsigned.clone();
+            r.headers.push(("DATE".to_owned(), rand_date(rng)));
+            sign(&mut r, None);
+            out(&r, "accept", "dup-date-signed");
         }
         if let Some(j) = xi {
             let mut r = signed.clone();
@@ -1732,6 +1745,21 @@ fn witnesses() {
     );
     sign(&mut r, None);
     e2e("w-content-type-twice-signed", &r, "accept", "dup-ctype-signed");
+    let mut r = plain(
+        None,
+        "PUT",
+        "/bkt/k",
+        &[],
+        &[
+            ("Date", "Tue, 27 Mar 2007 19:36:42 +0000"),
+            ("Content-MD5", "4gJE4saaMU4BqNR0kLY+lw=="),
+            ("date", "Tue, 27 Mar 2007 19:36:43 +0000"),
+            ("content-md5", "AAAAAAAAAAAAAAAAAAAAAA=="),
+        ],
+        None,
+    );
+    sign(&mut r, None);
+    e2e("w-date-md5-twice-signed", &r, "accept", "dup-date-signed");
     // F-sigv2e2e-3: x-amz-date written twice
     let mut r = plain(
         None,
@@ -1858,6 +1886,11 @@ fn witnesses() {
         "w-sts-content-type-twice",
         "header",
         &plain(None, "GET", "/bkt/k", &[], &[("Date", "Tue, 27 Mar 2007 19:36:42 +0000"), ("Content-Type", "a/b"), ("Content-Type", "c/d")], None),
+    ));
+    comp.push(sts_line(
+        "w-sts-date-md5-twice",
+        "header",
+        &plain(None, "PUT", "/bkt/k", &[], &[("Date", "D1"), ("content-md5", "m1"), ("DATE", "D2"), ("Content-MD5", "m2")], None),
     ));
     comp.push(sts_line(
         "w-sts-xamzdate-twice",
